@@ -11,6 +11,7 @@ fn main() {
     let stdin = std::io::stdin();
     let stdout = std::io::stdout();
     let mut out = std::io::BufWriter::new(stdout.lock());
+    let hang_ms: u64 = std::env::var("RVH_HANG_MS").ok().and_then(|v| v.parse().ok()).unwrap_or(3000);
     for line in stdin.lock().lines() {
         let line = line.unwrap();
         let mut toks: Vec<String> = line.split_whitespace().map(|s| s.to_string()).collect();
@@ -20,20 +21,32 @@ fn main() {
         }
         let op = toks.remove(0);
         let kind = toks.remove(0);
-        let res = catch_unwind(AssertUnwindSafe(|| {
-            let mut a = Args::new(toks.clone());
-            if let Some(r) = manual::dispatch(&op, &kind, &mut a) {
-                return r;
-            }
-            let mut a = Args::new(toks.clone());
-            match gen_dispatch::dispatch(&op, &kind, &mut a) {
-                Some(r) => r,
-                None => "NOOP".to_string(),
-            }
-        }));
-        match res {
+        let (tx, rx) = std::sync::mpsc::channel();
+        let opc = op.clone();
+        let kindc = kind.clone();
+        let toksc = toks.clone();
+        // each case runs in its own thread so that a non-terminating call is reported (HANG) instead of blocking the run
+        let _ = std::thread::Builder::new().stack_size(64 << 20).spawn(move || {
+            let res = catch_unwind(AssertUnwindSafe(|| {
+                let mut a = Args::new(toksc.clone());
+                if let Some(r) = manual::dispatch(&opc, &kindc, &mut a) {
+                    return r;
+                }
+                let mut a = Args::new(toksc.clone());
+                match gen_dispatch::dispatch(&opc, &kindc, &mut a) {
+                    Some(r) => r,
+                    None => "NOOP".to_string(),
+                }
+            }));
+            let _ = tx.send(match res {
+                Ok(r) => r,
+                Err(_) => "PANIC".to_string(),
+            });
+        });
+        let limit = std::time::Duration::from_millis(hang_ms);
+        match rx.recv_timeout(limit) {
             Ok(r) => writeln!(out, "{}", r).unwrap(),
-            Err(_) => writeln!(out, "PANIC").unwrap(),
+            Err(_) => writeln!(out, "HANG").unwrap(),
         }
     }
 }
